@@ -389,6 +389,10 @@ def rule_r6(ctx: Ctx) -> None:
         (["/w/a/x/y/z", "/w/q", "/w/a"], "NestedRootNamespaceError"),
         (["/w/a", "/v/a"], "name"),
         (["/w/a", "/v/A"], "name"),
+        (["/w/Sensors", "/v/SENSORS"], "name"),  # neither spelling is the lower-case one
+        (["/w/aB", "/v/Ab"], "name"),
+        (["/w/AB", "/v/AB"], "name"),
+        (["/w/Ab", "/v/Ac"], None),
         (["/w/ab", "/w/a"], None),  # a name that merely starts like another is not nested
         (["/w/a", "/v/b", "/u/c"], None),
     ]
